@@ -382,6 +382,20 @@ class Gen:
                 self.log.append({"rule": "R-DBG", "file": rel, "fn": qual, "line": line, "what": "removed %s!(..)" % m.group(1)})
                 body = body[:m.start()] + body[e:]
                 changed = True
+        # R-ERRFMT (generic): error *messages* become an opaque String (variants are kept)
+        while True:
+            msk = mask(body)
+            m = re.search(r"\bformat!\s*(\()", msk)
+            if not m:
+                break
+            c = match_close(msk, m.start(1))
+            self.log.append({"rule": "R-ERRFMT", "file": rel, "fn": qual, "line": line, "what": "format!(..) => opaque_string(): %s" % " ".join(body[m.start():c + 1].split())[:80]})
+            body = body[:m.start()] + "opaque_string()" + body[c + 1:]
+        def tostr(m):
+            self.log.append({"rule": "R-ERRFMT", "file": rel, "fn": qual, "line": line, "what": "string literal .to_string()/.into() => opaque_string(): %s" % m.group(0)[:60].replace("\n", " ")})
+            return "opaque_string()"
+        body = re.sub(r'"(?:[^"\\]|\\.)*"\s*\.to_string\(\)', tostr, body)
+        body = re.sub(r'"(?:[^"\\]|\\.)*"\s*\.into\(\)', tostr, body)
         # R-REFPAT (generic): `if let Some(&x) = E {`  =>  `if let Some(x__r) = E { let x = *x__r;`
         def refpat(m):
             self.log.append({"rule": "R-REFPAT", "file": rel, "fn": qual, "line": line, "what": "`%s let Some(&%s) = ..` => bind reference, then `let %s = *%s__r;`" % (m.group(1), m.group(2), m.group(2), m.group(2))})
@@ -461,7 +475,13 @@ class Gen:
         if where == "start":
             return "\n" + text + "\n" + body
         if where == "end":
-            return body.rstrip() + "\n" + text + "\n"
+            b = body.rstrip()
+            last_nl = b.rfind("\n")
+            tail = b[last_nl + 1:].strip()
+            if tail.endswith(";") or tail.endswith("}"):
+                return b + "\n" + text + "\n"
+            # the body ends with a one-line tail expression (e.g. `Ok(())`): the proof goes before it
+            return b[:last_nl + 1] + text + "\n" + b[last_nl + 1:] + "\n"
         cnt = body.count(anchor)
         if cnt != 1:
             raise AnchorLost("%s: %s: proof anchor `%s` matched %d times (template line %d)" % (rel, qual, anchor, cnt, tl))
